@@ -38,7 +38,17 @@ def targeted(rng):
     names = rng.sample(ge.NAMES, 5)
     a, b, c, d, e = names
     v = lambda n, star=None, ivs=(): [n, star, [list(i) for i in ivs]]  # noqa: E731
-    k = rng.randrange(19)
+    k = rng.randrange(22)
+    if k >= 19:  # factors that differ ONLY in the own value of a (counterfactual) variable, as child or as condition
+        ivs = [[b, rng.random() < 0.3]] + ([[c, False]] if rng.random() < 0.4 else [])
+        stars = rng.sample([None, True, False], rng.choice([2, 3]))
+        if k == 19:
+            fs = [["P", None, [v(a, st, ivs)], []] for st in stars]
+        elif k == 20:
+            fs = [["P", None, [v(d)], [v(a, st, ivs)]] for st in stars]
+        else:
+            fs = [["P", None, [v(a, st, [])], [v(e)]] for st in stars]
+        return ["prod", fs + ([["P", None, [v(e)], []]] if rng.random() < 0.5 else [])]
     if k >= 16:  # one name in several worlds inside ONE probability, some worlds with two or three joint subscripts
         def world(pool):
             return [[x, rng.random() < 0.3] for x in rng.sample(pool, rng.choice([1, 2, 2, 3]))]
